@@ -508,6 +508,130 @@ class GroupContains(FnSpec):
         return [("name-listed-and-that-version-registered", is_bool_eq(res, want), "`name in group` holds iff some version of the name is registered; `(name, version) in group` iff exactly that version is (equality of references is equality of (group, name, version))")]
 
 
+# ---- the rest of the lookup path: _get_unsafe, __getitem__, _ensure_is_loaded ------------------------------------------------------------------
+RESOLVED_SOME = z3.Bool("resolve_finds_a_supporting_version")
+ALREADY_LOADED = z3.Bool("plugin_of_that_reference_is_already_loaded")
+KEY_IN_GROUP = z3.Bool("key_is_in_the_group")
+SAME_GROUP = z3.Bool("reference_belongs_to_this_group")
+
+
+class RefTok(SVal):
+    def py_truth(self, cx):
+        return True
+
+    def py_getattr(self, cx, n):
+        if n == "group":
+            return GroupNameTok(z3.If(SAME_GROUP, z3.StringVal("this-group"), z3.StringVal("another-group")))
+        if n in ("name", "version"):
+            return n + "-of-the-reference"
+        raise Unsupported("reference attribute " + n)
+
+
+class GroupNameTok(SStr):
+    pass
+
+
+class LoadedMap(SVal):
+    def __init__(self):
+        self.stored = []
+
+    def py_contains(self, cx, k):
+        return ALREADY_LOADED if isinstance(k, RefTok) else (_ for _ in ()).throw(Unsupported("membership of another key"))
+
+    def py_getitem(self, cx, k):
+        cx.effect("loaded-get", k)
+        return ("loaded-plugin-of", k)
+
+    def py_setitem(self, cx, k, v):
+        cx.effect("loaded-set", k, v)
+
+
+class GetUnsafe(FnSpec):
+    file = "plugin/interface.py"
+    qual = "PluginGroup._get_unsafe"
+    props = ("C16",)
+
+    def setup(self, cx):
+        me = SObj("PluginGroupLookup", name="self")
+        self.ref = RefTok()
+        from pyvc.values import SMaybe
+
+        me.fields["resolve"] = lambda cx2, n, v: (cx2.effect("resolve", n, v), SMaybe(z3.Not(RESOLVED_SOME), self.ref))[1]
+        me.fields["_ensure_is_loaded"] = lambda cx2, r: cx2.effect("ensure-loaded", r)
+        me.fields["_LOADED_PLUGINS"] = LoadedMap()
+        return A(self=me, p_name=SStr.fresh("p_name"), version="requested-version")
+
+    def raises(self, cx, a):
+        return {"KeyError": z3.Not(RESOLVED_SOME)}
+
+    def ensures(self, cx, a, res):
+        kinds = [e[0] for e in cx.fx]
+        ok = kinds == ["resolve", "ensure-loaded", "loaded-get"] and cx.fx[0][1] is a.p_name and cx.fx[0][2] == "requested-version"
+        ref_of = lambda v: v.val if hasattr(v, "val") else v  # noqa: E731
+        same = ok and ref_of(cx.fx[1][1]) is self.ref and ref_of(cx.fx[2][1]) is self.ref and isinstance(res, tuple) and ref_of(res[1]) is self.ref
+        return [("the-plugin-of-the-resolved-reference-loaded-first", z3.BoolVal(bool(same)), "the class handed out is the loaded plugin of exactly the reference resolve() chose for (name, version) — loaded before it is looked up; no supporting version means KeyError")]
+
+
+class GroupGetItem(FnSpec):
+    file = "plugin/interface.py"
+    qual = "PluginGroup.__getitem__"
+    props = ("C16",)
+
+    def setup(self, cx):
+        me = SObj("PluginGroupLookup2", name="self")
+        me.fields["get"] = lambda cx2, k, *r: (cx2.effect("get", k, r), "what-get-returns")[1]
+        me.fields["name"] = "this-group"
+        return A(self=me, key=SStr.fresh("key"))
+
+    def raises(self, cx, a):
+        return {"KeyError": z3.Not(KEY_IN_GROUP)}
+
+    def ensures(self, cx, a, res):
+        g = [e for e in cx.fx if e[0] == "get"]
+        return [("get-for-the-same-key", z3.BoolVal(res == "what-get-returns" and len(g) == 1 and g[0][1] is a.key and tuple(g[0][2]) == ()), "group[key] is get(key) for keys the group contains (KeyError otherwise)")]
+
+
+class EnsureLoaded(FnSpec):
+    file = "plugin/interface.py"
+    qual = "PluginGroup._ensure_is_loaded"
+    props = ("C16",)
+
+    def init(self):
+        self.bindings["util"] = type("U", (SVal,), {"meth_to_ep_name": lambda s, cx, n, v: ("ep-name-of", n, v)})()
+
+    def setup(self, cx):
+        me = SObj("PluginGroupLookup", name="self")
+        me.fields["name"] = SStr(z3.StringVal("this-group"))
+        me.fields["_LOADED_PLUGINS"] = LoadedMap()
+
+        class Ep(SVal):
+            def meth_load(s, cx2):
+                cx2.effect("ep-load")
+                return "the-loaded-class"
+
+        class Eps(SVal):
+            def py_getitem(s, cx2, k):
+                cx2.effect("ep-get", k)
+                return Ep()
+
+        me.fields["_ENTRY_POINTS"] = Eps()
+        me.fields["_load_plugin"] = lambda cx2, epn, p: cx2.effect("check-and-init", epn, p)
+        return A(self=me, ref=RefTok())
+
+    def raises(self, cx, a):
+        return {"AssertionError": z3.Not(SAME_GROUP)}
+
+    def ensures(self, cx, a, res):
+        kinds = [e[0] for e in cx.fx]
+        want = ["ep-get", "ep-load", "loaded-set", "check-and-init"]
+        epn = ("ep-name-of", "name-of-the-reference", "version-of-the-reference")
+        ok = kinds == want and cx.fx[0][1] == epn and cx.fx[2][1] is a.ref and cx.fx[2][2] == "the-loaded-class" and cx.fx[3][1] == epn and cx.fx[3][2] == "the-loaded-class"
+        return [
+            ("loaded-once", z3.Implies(ALREADY_LOADED, z3.BoolVal(not kinds)), "a plugin that is loaded is not loaded again"),
+            ("otherwise-loaded-from-its-own-entry-point-stored-and-checked", z3.Implies(z3.Not(ALREADY_LOADED), z3.BoolVal(bool(ok))), "otherwise the entry point named after exactly this reference's (name, version) is loaded, the class is stored under the reference, and the group's checks and initialisation run on it"),
+        ]
+
+
 class Versions(FnSpec):
     file = "plugin/interface.py"
     qual = "PluginGroup.versions"
@@ -717,6 +841,9 @@ def build(reg):
     reg.elem_order["PluginRef"] = key_lt
     reg.elem_eq["PluginRef"] = key_eq  # EqSpec, proved below
     reg.set_class_home("PluginGroupForGet", "plugin/interface.py", "PluginGroup")
+    reg.set_class_home("PluginGroupLookup", "plugin/interface.py", "PluginGroup")
+    reg.set_class_home("PluginGroupLookup2", "plugin/interface.py", "PluginGroup")
+    reg.method_bindings[("PluginGroupLookup2", "__contains__")] = lambda cx, g, k: SBool(KEY_IN_GROUP)
 
     def get_unsafe(cx, g, name, version=None):
         a = cx.run_args
@@ -727,7 +854,7 @@ def build(reg):
         return PluginCls(cid)
 
     reg.method_bindings[("PluginGroupForGet", "_get_unsafe")] = get_unsafe
-    specs = [EqSpec(), GeSpec(), SupportsSpec(), HashSpec(), GtFromGe(), LeFromGe(), LtFromGe(), AddEp(), ManualRegister(), Versions(), Resolve(), GroupGet(), GroupContains()]
+    specs = [EqSpec(), GeSpec(), SupportsSpec(), HashSpec(), GtFromGe(), LeFromGe(), LtFromGe(), AddEp(), ManualRegister(), Versions(), Resolve(), GroupGet(), GroupContains(), GetUnsafe(), GroupGetItem(), EnsureLoaded()]
     for s in specs + [HasNamespace()]:
         reg.add(s)
     specs = specs + epnames.add_epnames(reg, FromEpName)
